@@ -50,6 +50,32 @@ pub fn gen(seed: u64, tier: Tier, k: u64) -> Value {
         v["pkg"] = json!("bare");
         return v;
     }
+    if (tier == Tier::Quick && k == 9) || (tier == Tier::Thorough && k % 300 == 9) {
+        // more than 4095 contents kept raw in a COMPRESSING pack: the raw cluster is closed by the blob-count limit, not at the end
+        let mut items: Vec<Item> = vec![];
+        for i in 0..4100usize {
+            items.push(Item { len: 1 + i % 3, ent: Ent::High, hint: Hint::No, src: Src::Mem, dup_of: None, cat_of: None });
+        }
+        for _ in 0..3 {
+            items.push(Item { len: 600, ent: Ent::Low4, hint: Hint::Yes, src: Src::Mem, dup_of: None, cat_of: None });
+        }
+        let case = ContentCase { seed: rng.next(), comp: *rng.pick(&[Comp::Zstd(1), Comp::Lz4(1)]), cached: false, items };
+        let mut v = case.to_json();
+        v["pkg"] = json!("bare");
+        return v;
+    }
+    if (tier == Tier::Quick && k == 10) || (tier == Tier::Thorough && k % 300 == 10) {
+        // compressed clusters closed faster than they are compressed: a slow compressor, one compression worker (the case runs
+        // restricted to one CPU) and contents that each close the cluster of the previous one; the queue in front of the
+        // workers fills up and the creator has to wait. The hint still decides.
+        let n = if tier == Tier::Quick { 9 } else { 14 };
+        let items: Vec<Item> = (0..n).map(|_| Item { len: 2 * 1024 * 1024 + 1, ent: Ent::High, hint: Hint::Yes, src: Src::Mem, dup_of: None, cat_of: None }).collect();
+        let case = ContentCase { seed: rng.next(), comp: Comp::Zstd(19), cached: false, items };
+        let mut v = case.to_json();
+        v["pkg"] = json!("bare");
+        v["cpus"] = json!(1);
+        return v;
+    }
     let comp = match k % 5 {
         0 => Comp::None,
         1 => Comp::Lz4(*rng.pick(&[0u32, 3, 9, 15])),
@@ -135,7 +161,24 @@ pub fn run(desc: &Value, ctx: &Ctx) -> CaseOut {
     let pkg = Pkg::parse(jstr(desc, "pkg"));
     c01::fingerprint(&case, pkg, &mut out);
     let scratch = Scratch::new(&ctx.work, "c16");
-    let created = match util::catch(|| c01::create(&case, pkg, &scratch.dir, Arc::new(()))) {
+    // a case may ask to be created on a restricted set of CPUs (the creator sizes its worker pool and queue from it)
+    let cpus = desc.get("cpus").and_then(|v| v.as_u64()).unwrap_or(0) as usize;
+    let mut all: libc::cpu_set_t = unsafe { std::mem::zeroed() };
+    if cpus > 0 {
+        unsafe {
+            libc::sched_getaffinity(0, std::mem::size_of::<libc::cpu_set_t>(), &mut all);
+        }
+        if !crate::c08::set_affinity(cpus) {
+            out.inconclusive("cannot restrict the CPU affinity");
+            return out;
+        }
+        out.obs.inc("cases_created_on_restricted_cpus");
+    }
+    let created = util::catch(|| c01::create(&case, pkg, &scratch.dir, Arc::new(())));
+    if cpus > 0 {
+        crate::c08::reset_affinity(&all);
+    }
+    let created = match created {
         Ok(Ok(c)) => c,
         Ok(Err(e)) => {
             out.inconclusive(format!("creation failed (C01's concern): {e}"));
